@@ -200,17 +200,17 @@ func c06Cell(progIdx uint64, k int) core.Cell {
 	return core.Cell{ID: fmt.Sprintf("C06/p%d/c%d", progIdx, k), Fn: entry, Decls: b.String(), Tags: tags}
 }
 
-const c06Universe = 3000
+const c06Universe = 12000
 const c06Cells = 12
 
 func init() { checks["C06"] = checkC06 }
 
 func checkC06(r *core.Run) {
-	r.Rule = "universe = 3000 generated programs x 12 cells; a cell is a call tree (depth up to 4) whose functions defer function literals, named functions with arguments mutated afterwards, value and pointer method values, defers in loops, builtin defers, direct/helper/nested recover, re-panics, and raise explicit panics (string, struct, error) or run-time faults (nil dereference, index, slice, integer division by zero, nil map write, failed type assertion, close of closed channel), with named results altered after recover; each deferred call logs a unique id. verdict per cell = the log equals the gc binary's (run-time faults are compared by class, not message). A second family evaluates uncaught panics interactive-style: Eval must return interp.Panic carrying the original value, nothing may escape as a Go panic, and the interpreter must stay usable"
+	r.Rule = "universe = 12000 generated programs x 12 cells; a cell is a call tree (depth up to 4) whose functions defer function literals, named functions with arguments mutated afterwards, value and pointer method values, defers in loops, builtin defers, direct/helper/nested recover, re-panics, and raise explicit panics (string, struct, error) or run-time faults (nil dereference, index, slice, integer division by zero, nil map write, failed type assertion, close of closed channel), with named results altered after recover; each deferred call logs a unique id. verdict per cell = the log equals the gc binary's (run-time faults are compared by class, not message). A second family evaluates uncaught panics interactive-style: Eval must return interp.Panic carrying the original value, nothing may escape as a Go panic, and the interpreter must stay usable"
 	r.Assume = []string{"gc build of the same source is the reference for the logs", "messages of run-time faults are not compared (reflect-based wording is not promised)"}
 	n := 60
 	if r.Thorough() {
-		n = 1500
+		n = 4000
 	}
 	if os.Getenv("VERIF_C06_ALL") != "" {
 		n = c06Universe
